@@ -37,11 +37,23 @@ def rot_arg(spec):
     return c01_pose.rotation_candidates(spec)
 
 
-def run_model(Model, templates, arg, sub, ms):
+def run_model(Model, templates, arg, sub, ms, mask=None):
     kw = {} if arg is None else {"rotations": arg}
     tmpl = templates[0] if len(templates) == 1 else list(templates)
-    m = Model(tmpl, **kw)
+    m = Model(tmpl, mask, **kw)
     return m.align(sub, ms), m
+
+
+def union_mask(blobsets, shape, pad):
+    """anisotropic binary mask: union of balls of radius 2.3 sigma + pad around every blob of every template"""
+    c = (np.asarray(shape, dtype=np.float64) - 1) / 2
+    zz, yy, xx = np.meshgrid(*[np.arange(n, dtype=np.float64) for n in shape], indexing="ij")
+    m = np.zeros(shape, dtype=bool)
+    for bs in blobsets:
+        for b in bs:
+            cb = c + np.asarray(b["u"])
+            m |= ((zz - cb[0]) ** 2 + (yy - cb[1]) ** 2 + (xx - cb[2]) ** 2) <= (2.3 * b["s"] + pad) ** 2
+    return m.astype(np.float32)
 
 
 def judge_model(d):
@@ -62,9 +74,12 @@ def judge_model(d):
     unequal = max(norms) / min(norms) > 1.01
     tag = (f"{d['model']} T={T} K={K} rots={d['rots']['kind']} planted (j={j}, k={k}, d={np.round(disp, 3).tolist()}) "
            f"shape={shape} max_shifts={ms}")
+    mask = union_mask(d["blobsets"], shape, float(np.abs(disp).max()) + 0.8) if d.get("mask") else None
+    stol = 0.5 if mask is not None else 0.15
+    tag += f" mask={'union-of-balls' if mask is not None else 'none'}"
     with warnings.catch_warnings():
         warnings.simplefilter("ignore")
-        res, model = run_model(Model, templates, arg, sub, ms)
+        res, model = run_model(Model, templates, arg, sub, ms, mask)
     lab = int(res.label)
     mislabel_sig = "C06/pcc-unnormalised-template-choice" if (d["model"] == "PCC" and unequal and T > 1) else None
     if not (0 <= lab < T * K):
@@ -82,7 +97,7 @@ def judge_model(d):
         out.append(viol("C06/reported-rotation", f"{tag}: reported rotation is {'candidate ' + str(hit) if hit else 'not a candidate'} "
                         f"({math.degrees(qerr):.2f} deg from q_k); label={lab}"))
     serr = float(np.abs(np.asarray(res.shift, dtype=np.float64) - disp).max())
-    if not serr <= 0.15 and lab == k * T + j:
+    if not serr <= stol and lab == k * T + j:
         out.append(viol("C06/shift", f"{tag}: shift {np.round(res.shift, 3).tolist()} (error {serr:.3f})"))
     # the reported rotation must be exactly the candidate the label points at
     if 0 <= lab < T * K:
@@ -98,14 +113,14 @@ def judge_model(d):
             for i in range(T):
                 for c in range(K):
                     if K == 1:
-                        r, _ = run_model(Model, [templates[i]], None, sub, ms)
+                        r, _ = run_model(Model, [templates[i]], None, sub, ms, mask)
                     else:
                         pair = Rotation.concatenate([Rotation.identity(), cands[c]]) if planted.angle(cands[c], Rotation.identity()) > 1e-9 \
                             else None
                         if pair is None:
-                            r, _ = run_model(Model, [templates[i]], None, sub, ms)
+                            r, _ = run_model(Model, [templates[i]], None, sub, ms, mask)
                         else:
-                            r, _ = run_model(Model, [templates[i]], pair, sub, ms)
+                            r, _ = run_model(Model, [templates[i]], pair, sub, ms, mask)
                     best = max(best, float(r.score))
         sc = float(res.score)
         if not abs(sc - best) <= 1e-4 * max(1.0, abs(best)):
@@ -121,7 +136,7 @@ def judge_model(d):
             arg2 = Rotation.concatenate([cands[i] for i in pk]) if K > 1 else None
             with warnings.catch_warnings():
                 warnings.simplefilter("ignore")
-                res2, _ = run_model(Model, [templates[i] for i in pt], arg2, sub, ms)
+                res2, _ = run_model(Model, [templates[i] for i in pt], arg2, sub, ms, mask)
             lab2 = int(res2.label)
             if 0 <= lab2 < T * K:
                 t2, k2 = pt[lab2 % T], pk[lab2 // T]
@@ -139,11 +154,11 @@ def judge_model(d):
         with warnings.catch_warnings():
             warnings.simplefilter("ignore")
             kw = {} if arg is None else {"rotations": arg}
-            fitted, rf = Model(templates[0], **kw).fit(sub, ms)
+            fitted, rf = Model(templates[0], mask, **kw).fit(sub, ms)
         e3 = planted.angle(Rotation.from_quat(np.asarray(rf.quat, dtype=np.float64)), cands[k])
         if not e3 <= 1e-6:
             out.append(viol("C06/fit-rotation", f"{tag}: fit reported a rotation {math.degrees(e3):.2f} deg from q_k"))
-        elif float(np.abs(np.asarray(rf.shift) - disp).max()) <= 0.15:
+        elif float(np.abs(np.asarray(rf.shift) - disp).max()) <= 0.15 and mask is None:
             cc = np.corrcoef(fitted.ravel(), templates[0].ravel())[0, 1]
             if not cc >= 0.97:
                 out.append(viol("C06/fit-not-superimposed", f"{tag}: corr(fit output, template) = {cc:.3f}"))
@@ -185,13 +200,14 @@ def judge_loader(d):
         else:
             raise HarnessError(route)
     tag0 = f"{d['model']} route={route} T={T} K={len(c['cands'])} scale={scale}"
-    if len(res) != n or lname not in res.features.columns:
+    single_path = T == 1 and route == "align-stack"  # a 1-template stack takes the plain align path: no label column
+    if len(res) != n or (lname not in res.features.columns and not single_path):
         out.append(viol("C06/loader-result", f"{tag0}: {len(res)} molecules, columns {res.features.columns}"))
         return out
     uid = res.features["uid"].to_list()
     for row, i in enumerate(uid):
         want_t = d["particles"][i]["tmpl"] % T
-        lab = int(res.features[lname][row])
+        lab = want_t if single_path else int(res.features[lname][row])
         tag = f"{tag0} particle {i} (template {want_t}, k={c['k'][i]})"
         if lab != want_t:
             out.append(viol(f"C06/loader-template-label:{route}", f"{tag}: {lname}={lab}"))
@@ -288,7 +304,7 @@ def model_cases(draw):
     rmax = (min(shape) - 1) / 2 - max(ms) - 0.5
     blobsets = [draw(planted.blob_offsets(rmax, variant=v)) for v in range(T)]
     return {"model": model, "shape": shape, "max_shifts": ms, "rots": rots, "blobsets": blobsets,
-            "equal_energy": draw(st.booleans()),
+            "equal_energy": draw(st.booleans()), "mask": draw(st.sampled_from([False, False, True])),
             "j": draw(st.integers(0, 5)), "k": draw(st.integers(1, 40)),
             "d": [round(draw(st.floats(-0.9 * m, 0.9 * m)), 3) for m in ms],
             "optimality": draw(st.sampled_from([False, False, True])),
@@ -333,7 +349,7 @@ def labels_model(d):
     K, T = nk(d), len(d["blobsets"])
     return gen.parity_class(d["shape"]) + [f"model:{d['model']}", f"T:{T}", f"K:{K}", f"TK:{T}x{K}", f"rots:{d['rots']['kind']}",
                                            "equal-energy" if d["equal_energy"] else "unequal-energy",
-                                           "optimality-checked" if d["optimality"] and T * K <= 9 else "optimality-skipped"]
+                                           "optimality-checked" if d["optimality"] and T * K <= 9 else "optimality-skipped", "masked" if d.get("mask") else "unmasked"]
 
 
 def labels_loader(d):
